@@ -133,7 +133,13 @@ func (a *sessionAwareAdapter) RestoreSession(
 	for i := index + 1; i < len(a.packets); i++ {
 		packet := a.packets[i]
 		if shouldIncludePacket(sessionWithTS.SessionToPersist.Rooms, packet.Opts) {
-			missedPackets = append(missedPackets, packet)
+			// The caller encodes the packet again, and encoding writes to the header and to the list of values.
+			// The log is shared by all the sessions (several can be restored at the same time): hand out copies.
+			missedPacket := *packet
+			header := *packet.Header
+			missedPacket.Header = &header
+			missedPacket.Data = append([]any(nil), packet.Data...)
+			missedPackets = append(missedPackets, &missedPacket)
 		}
 	}
 
@@ -173,12 +179,15 @@ func (a *sessionAwareAdapter) Broadcast(header *parser.PacketHeader, v []any, op
 		id := a.yeaster.Yeast()
 		v = append(v, id)
 
+		// (The header and the list of values are about to be encoded for the sockets that are connected now,
+		// possibly while a session that is being restored reads the log: the log gets its own copies.)
+		loggedHeader := *header
 		packet := &PersistedPacket{
-			Header:    header,
+			Header:    &loggedHeader,
 			ID:        id,
 			Opts:      opts,
 			EmittedAt: time.Now(),
-			Data:      v,
+			Data:      append([]any(nil), v...),
 		}
 		a.packets = append(a.packets, packet)
 		a.mu.Unlock()
